@@ -12,10 +12,12 @@ CONSTANTS
   MaxPush = 6
   Faults = {"sendErr", "recvErr", "peerClose"}
   RespShapes <- RS_gen
+  Abandon = FALSE
   MaxArr = 3
   ArrMenu = {"resp", "notif", "close"}
   ScriptLen = 18
   HoldGate = 30
+  AbandonGate = 10
   FaultGate = 8
 INIT GInit
 NEXT GNext
